@@ -76,7 +76,7 @@ def make_wrapper(spec, fn):
     for v in list(vars(hm).values()):
         if isinstance(v, types.FunctionType) and v.__doc__ and ('post:' in v.__doc__ or 'pre:' in v.__doc__):
             raise TypeError('harness function %s carries a PEP316 contract; use requires:' % v.__name__)
-    name = 'xhw_%d' % os.getpid()
+    name = 'xhw_%d_%s' % (os.getpid(), os.urandom(4).hex())
     path = os.path.join(spec['scratch'], name + '.py')
     with open(path, 'w') as f:
         f.write(src)
@@ -134,6 +134,13 @@ def run_symbolic(spec):
 
     mod = importlib.import_module(spec['module'])
     fn = getattr(mod, spec['fn'])
+    # warm-up: run the module's concrete self-tests once, untraced, so that parser tables, lexer caches and
+    # lazily built constants exist before symbolic execution starts (and the harness is validated again)
+    if hasattr(mod, 'selftests'):
+        for sfn, sargs in mod.selftests(spec.get('prop')):
+            if True:
+                if getattr(mod, sfn)(**sargs) is not True:
+                    return dict(verdict='ERROR', message='self-test %s%r failed in worker' % (sfn, sargs))
     cond = make_wrapper(spec, fn)
     stats = collections.Counter()
     opts = AnalysisOptionSet(per_condition_timeout=float(spec['timeout']),
